@@ -366,6 +366,7 @@ func (c *chunkReader) Read(p []byte) (int, error) {
 }
 
 func runC20(r *core.Run) {
+	firstCallClause(r, "smtext.", "align.Symmetrical", "align.GoString")
 	defer racePass(r, "race-C20", "GoString, Symmetrical and Get on one shared matrix")
 
 	lists := labelLists(3)
